@@ -74,6 +74,9 @@ inductive EditOp where
   | rename (old new : Line)
   | del (k : Line)
   | insert (k : Line) (h : Header) (c : List Line) (md : Metadata)
+  /-- `file[k] = record` / one item of `SDFile({k: record, …})` for *any* `SDRecord` object, e.g. one
+  taken from another parsed file whose header is still text: the header is parsed, renamed, cached. -/
+  | adopt (k : Line) (r : LRec)
 
 inductive EditOut where
   | unit | err (e : Err)
@@ -119,6 +122,10 @@ def lazyStep (f : LFile) : EditOp → LFile × EditOut
     | some _ => (eraseK k f, .unit)
   | .insert k h c md =>
     (dictSet k (.parsed ⟨.parsed { h with molName := k }, c, .parsed md⟩) f, .unit)
+  | .adopt k r =>
+    match forceH r.header with
+    | none => (f, .err deserErr)
+    | some h => (dictSet k (.parsed { r with header := .parsed { h with molName := k } }) f, .unit)
 
 /-- The same edits on the plain mapping of parsed records. -/
 def specStep (p : PFile) : EditOp → PFile × EditOut
@@ -152,6 +159,10 @@ def specStep (p : PFile) : EditOp → PFile × EditOut
     | none => (p, .err .keyError)
     | some _ => (eraseK k p, .unit)
   | .insert k h c md => (dictSet k ⟨some { h with molName := k }, c, some md⟩ p, .unit)
+  | .adopt k r =>
+    match r.abs.header with
+    | none => (p, .err deserErr)
+    | some h => (dictSet k { r.abs with header := some { h with molName := k } } p, .unit)
 
 def lazyRun : LFile → List EditOp → LFile × List EditOut
   | f, [] => (f, [])
@@ -166,6 +177,26 @@ def specRun : PFile → List EditOp → PFile × List EditOut
     let r := specStep p op
     let r' := specRun r.1 ops
     (r'.1, r.2 :: r'.2)
+
+/-- `SDFile(records)` for a dict of `SDRecord` objects: every item is adopted under its key. -/
+def sdfileOfDict (items : List (Line × LRec)) : LFile × List EditOut :=
+  lazyRun [] (items.map fun kr => .adopt kr.1 kr.2)
+
+/-! ### `MOLFile.set_structure` -/
+
+/-- `MOLFile.set_structure(atoms, default_bond_type, version)` on the lines of the file: the new
+line list is built first, so a rejected structure leaves the file as it was. -/
+def molSetStructure (lines : List Line) (m : Mol) (d : Nat) (v : Version) : List Line × Option Err :=
+  match writeCtab m d v with
+  | .ok cl => (lines.take 3 ++ cl, none)
+  | .error e => (lines, some e)
+
+/-- `_get_ctab_lines` + `read_structure_from_ctab` (`MOLFile.get_structure`). -/
+def molCtabLines (lines : List Line) : List Line :=
+  (lines.drop 3).take (ctabStop 0 lines - 3)
+
+def molGetStructure (lines : List Line) : Except Err MolR :=
+  if (molCtabLines lines).isEmpty then .error .invalidFile else readCtab (molCtabLines lines)
 
 /-- `SDFile.deserialize(text)`: every record still text. -/
 def lazyOfRecords (recs : List (Line × List Line)) : LFile := recs.map fun nr => (nr.1, .raw nr.2)
